@@ -262,7 +262,7 @@ pub fn replay_parse(rep: &mut Report, rec: &J) {
 	}
 	if exp["ok"].as_bool() == Some(true) {
 		rep.count("accepted");
-		if let Ok((v, cm)) = Value::parse_str_with(&s, o) {
+		if let Ok(Ok((v, cm))) = guarded(|| Value::parse_str_with(&s, o)) {
 			check_lookups(rep, &ctx, &v);
 			if rec.get("nav").is_some() && project(&v) == exp["v"] && project_cm(&cm) == exp["cm"] {
 				if let Err(p) = guarded(|| crate::navv::check_nav(rep, &ctx, &s, &v, &cm, &rec["nav"])) {
@@ -382,7 +382,7 @@ pub fn record(args: &Args) {
 					disagree.push(json!({"w": w, "o": opts_j(o)}));
 				}
 				if got["ok"] == true {
-					if let Ok((v, _)) = Value::parse_str_with(&text, *o) {
+					if let Ok(Ok((v, _))) = guarded(|| Value::parse_str_with(&text, *o)) {
 						let mut rep = Report::new();
 						check_lookups_pub(&mut rep, &json!({"w": w}), &v);
 						if !rep.mismatch_counts.is_empty() {
